@@ -1,4 +1,6 @@
-use super::swift_utils::{format_swift_amount_min_decimals, parse_amount_with_length};
+use super::swift_utils::{
+    fit_amount_length, format_swift_amount_min_decimals, parse_amount_with_length,
+};
 use crate::errors::ParseError;
 use crate::traits::SwiftField;
 use serde::{Deserialize, Serialize};
@@ -81,7 +83,7 @@ impl SwiftField for Field37H {
 
     fn to_swift_string(&self) -> String {
         let negative_indicator = if self.is_negative.is_some() { "N" } else { "" };
-        let rate_str = format_swift_amount_min_decimals(self.rate.abs(), 4);
+        let rate_str = fit_amount_length(format_swift_amount_min_decimals(self.rate.abs(), 4), 12);
         format!(
             ":37H:{}{}{}",
             self.rate_indicator, negative_indicator, rate_str
